@@ -25,7 +25,10 @@ RULE = (
     "- and compared with the PROJECTION of the value onto S_i (fields whose numbers exist there, first cap_old elements), so "
     "no skip arithmetic is trusted on the oracle side. evaluations = (older message, value, target) decodes. Non-trivial: the "
     "pair differs in a region that is FOLLOWED, in S_i's wire order, by at least one older leaf (a wrong skip distance is "
-    "observable); distinct by (S_i digest, S_k digest, message, value, target)."
+    "observable); distinct by (S_i digest, S_k digest, message, value, target). Part `wide`: the same oracle on directed histories "
+    "whose 16-bit prefix VALUES span the 16-bit range at every bit alignment: an extensible message of about 2**k bits or an "
+    "extensible array (of base types / of extensible messages) of about 2**k elements, k = 9..15, at bit offset 0..7, extended "
+    "by one step, followed by an older field."
 )
 ASSUMPTIONS = [
     "ref.py encoder and the projection are the specification (docs/language.rst, extensibility)",
@@ -33,7 +36,7 @@ ASSUMPTIONS = [
     "Go decoder executed by bpverif.gointerp (trusted for its subset); shapes of recorded Go findings (unused imports, "
     "foreign names in imported aliases) are not generated",
 ]
-REQUIRED_LABELS = ["step:grow_array", "step:append_field:base", "step:append_field:new_nested_msg", "followed_by_older_leaf", "target:c", "target:go", "chain3"]
+REQUIRED_LABELS = ["wide:message", "wide:array", "wide:prefix_value~2^15", "step:grow_array", "step:append_field:base", "step:append_field:new_nested_msg", "followed_by_older_leaf", "target:c", "target:go", "chain3"]
 
 
 @dataclass
@@ -43,6 +46,7 @@ class Case:
     steps: List[List[str]]
     rand: Dict[int, List[Any]]  # message index -> random values of the NEWEST version
     targets: List[str] = field(default_factory=list)
+    wide: Optional[Any] = None  # (k, r, variant) of a directed wide-prefix history
 
 
 @st.composite
@@ -77,6 +81,87 @@ def histories(draw: Any) -> Case:
     return Case(versions, msgs, steps, rand, targets)
 
 
+@st.composite
+def wide_histories(draw: Any) -> Case:
+    """Histories whose 16-bit prefix VALUES cover the whole 16-bit range at every bit alignment: an extensible
+    message of about 2**k bits (k = 9..15) or an extensible array of about 2**k elements, placed at bit offset
+    0..7 inside a message, extended by one permitted step, followed by an older field."""
+    from ..model import Field, File, TArray, TBase, TRef, set_parents
+
+    k = draw(st.integers(9, 15))
+    r = draw(st.integers(0, 7))
+    near = (1 << k) + draw(st.sampled_from([-9, -1, 0, 1, 8, 100]))
+    outer_ext = draw(st.booleans())
+    pk = Message("Packet", outer_ext)
+    if r:
+        pk.items.append(Field("seq", TBase("uint", r), 1))
+    else:
+        pk.items.append(Field("seq", TBase("byte"), 1))
+    f = File("wide", "wide")
+    variant = draw(st.sampled_from(["message", "array", "array_of_message"]))
+    if variant == "message":
+        blob = Message("Blob", True)
+        n = max(1, (near - 16) // 8)
+        blob.items.append(Field("data", TArray(TBase("byte"), n), 1))
+        rest = near - 16 - 8 * n
+        if rest > 0:
+            blob.items.append(Field("rest", TBase("uint", rest), 2))
+        f.items.append(blob)
+        pk.items.append(Field("blob", TRef("Blob", blob), 2))
+    elif variant == "array":
+        ebits = draw(st.sampled_from([1, 1, 1, 2]))
+        n = min(near, (65535 - 64) // ebits - 200)
+        pk.items.append(Field("flags", TArray(TBase("bool") if ebits == 1 else TBase("uint", ebits), n, True), 2))
+    else:
+        cell = Message("Cell", True)
+        cell.items.append(Field("on", TBase("bool"), 1))
+        f.items.append(cell)
+        n = min(near, (65535 - 64) // 17 - 40)
+        pk.items.append(Field("cells", TArray(TRef("Cell", cell), n, True), 2))
+    pk.items.append(Field("tail", TBase("uint", draw(st.sampled_from([16, 5, 13]))), 3))
+    f.items.append(pk)
+    unit = Unit([f])
+    set_parents(unit)
+    msgs0 = unit_messages(unit)
+    # the directed step on a copy (same mechanics as evolve.evolve)
+    import copy
+
+    u2, m2 = copy.deepcopy((unit, msgs0))
+    set_parents(u2)
+    pk2 = [m for m in m2 if m.name == "Packet"][0]
+    target = pk2.sorted_fields()[1].type
+    if variant == "message":
+        b2 = target.target
+        b2.items.append(Field("more", evolve._base(draw), 9))
+        step = "append_field:base"
+    else:
+        room = (65535 - 64 - ref.nbits(pk2)) // max(1, ref.nbits(target.elem))
+        grow = draw(st.sampled_from([1, 8, 100, max(1, (1 << k) - target.cap + 3)]))
+        target.cap += max(1, min(grow, room))
+        step = "grow_array"
+        if variant == "array_of_message" and draw(st.booleans()):
+            target.elem.target.items.append(Field("more", evolve._base(draw), 2))
+            step = "grow_array+append_field"
+    set_parents(u2)
+    if any(ref.nbits(m) > 65535 for m in unit_messages(u2)):
+        u2, m2 = unit, msgs0
+    versions, msgs, steps = [unit, u2], [msgs0, m2], [[step]]
+    if draw(st.integers(0, 2)) == 0:
+        u3, m3, applied = evolve.evolve(draw, u2, m2)
+        if applied:
+            versions.append(u3)
+            msgs.append(m3)
+            steps.append(applied)
+    rand = {j: [draw(S.values(m)) for _ in range(2)] for j, m in enumerate(msgs[-1])}
+    targets = ["py"]
+    q = draw(st.integers(0, 9))
+    if q < 3:
+        targets.append("c")
+    if q >= 8 and k <= 11:
+        targets.append("go")
+    return Case(versions, msgs, steps, rand, targets, wide=(k, r, variant))
+
+
 def describe(c: Case) -> Any:
     return {
         "versions": [render_bp.render_unit(u) for u in c.versions],
@@ -108,6 +193,10 @@ def run_case(c: Case, stats: Stats) -> None:
             stats.count("step:" + s)
     if len(c.versions) >= 3:
         stats.count("chain3")
+    if c.wide is not None:
+        stats.count(f"wide:prefix_value~2^{c.wide[0]}")
+        stats.count(f"wide:bit_offset_{c.wide[1]}")
+        stats.count(f"wide:{c.wide[2]}")
     comp = [gen.Compiled(u) for u in c.versions]
     try:
         mods = []
@@ -234,4 +323,7 @@ def _diff(m: Message, got: Any, expect: Any) -> Any:
     return out[:5]
 
 
-PARTS = [HypPart("history", lambda tier: histories(), run_case, {"quick": 640, "thorough": 12800}, describe=describe)]
+PARTS = [
+    HypPart("history", lambda tier: histories(), run_case, {"quick": 640, "thorough": 12800}, describe=describe),
+    HypPart("wide", lambda tier: wide_histories(), run_case, {"quick": 96, "thorough": 1920}, describe=describe),
+]
